@@ -12,7 +12,7 @@
    (contract N3; with a running pay the statement is false of any implementation that does not lock
    the node). The tree is the one after the D5 repair (pending parts are listed BEFORE completed
    parts, sequentially); the pinned order is refuted by Findings below. *)
-From Tramp Require Import Model.Base Model.Node Model.Provider Model.ProviderSys Proofs.ProviderProofs Proofs.ProviderTyped.
+From Tramp Require Import Model.Base Model.Node Model.Provider Model.ProviderSys Proofs.ProviderProofs Proofs.ProviderTyped Proofs.ProviderLive.
 
 Theorem C15_wait : forall (parts0 : list pstat) (evs : list pevent),
   hist_ok (wait_init parts0) evs = true ->
@@ -36,6 +36,32 @@ Theorem C15_error_only_after_a_read_error : forall (parts0 : list pstat) (evs : 
   hist_ok (wait_init parts0) evs = true -> hist_clean (wait_init parts0) evs = true ->
   ps_st (prun (wait_init parts0) evs) <> SFin PErr.
 Proof. exact wait_no_read_error_no_PErr. Qed.
+
+(* it RETURNS, on every schedule. In any contract-respecting history from the start of wait_payment in which every step does
+   something (changes the state: the node answers a query, a reply reaches the plugin, a pending part resolves — in any order,
+   with any RPC error injected), the call has returned after at most [ppot] steps, a number fixed by the parts at the start ... *)
+Theorem C15_returns_within_bounded_steps : forall (parts0 : list pstat) (evs : list pevent),
+  hist_ok (wait_init parts0) evs = true ->
+  (forall k e, nth_error evs k = Some e -> peffective (prun (wait_init parts0) (firstn k evs)) e) ->
+  waiting (prun (wait_init parts0) evs) <> None ->
+  (length evs <= ppot (wait_init parts0))%nat.
+Proof.
+  intros parts0 evs Hok Heff Hw. apply wait_effective_runs_are_bounded; auto.
+  - apply PInv_wait_init.
+  - intros k. discriminate.
+Qed.
+
+(* ... and as long as it has not returned there is always something to do: an RPC to process, a reply to deliver, or — when
+   every outstanding query waits for a pending part — a part for the network to resolve. wait_payment never deadlocks. *)
+Theorem C15_never_at_rest_before_returning : forall (parts0 : list pstat) (evs : list pevent) w,
+  hist_ok (wait_init parts0) evs = true ->
+  waiting (prun (wait_init parts0) evs) = Some w ->
+  exists ev, pwf (prun (wait_init parts0) evs) ev = true /\ peffective (prun (wait_init parts0) evs) ev.
+Proof.
+  intros parts0 evs w Hok Hw. apply (waiting_is_never_at_rest _ w); [|exact Hw|].
+  - apply PInv_run; [apply PInv_wait_init|exact Hok].
+  - apply NE_run. exact I.
+Qed.
 
 (* the answer stays true afterwards: once it returned, parts can only stay as they are (no pay is running) *)
 Theorem C15_invariant_everywhere : forall (parts0 : list pstat) (evs : list pevent),
